@@ -198,6 +198,9 @@ func (st *State) heap(key, sort string) string {
 // heapInvariant: type invariants of initial heap contents, by heap key (filled by Sorts on demand).
 var heapInvariant = map[string]string{
 	"HS_byte": "(forall ((r Int) (k Int)) (! (and (<= 0 (select (select $H r) k)) (<= (select (select $H r) k) 255)) :pattern ((select (select $H r) k))))",
+	"FBLEN":   "(forall ((r Int)) (! (>= (select $H r) 0) :pattern ((select $H r))))",
+	"DISKLEN": "(forall ((r Int)) (! (>= (select $H r) 0) :pattern ((select $H r))))",
+	"DISK":    "(forall ((r Int) (k Int)) (! (and (<= 0 (select (select $H r) k)) (<= (select (select $H r) k) 255)) :pattern ((select (select $H r) k))))",
 	"FB":      "(forall ((r Int) (k Int)) (! (and (<= 0 (select (select $H r) k)) (<= (select (select $H r) k) 255)) :pattern ((select (select $H r) k))))",
 }
 
